@@ -309,12 +309,9 @@ func runC10(p *Prog, r *Report) {
 				}
 				return ToRat(BuildExpr(p, st.Val, nil)).Equal(rfAtom("now").Add(rfAtom("fld(p0)."+rb.backoff), 1))
 			})
-			okArm := false
-			for _, t := range BoolTests(rb.adjust, func(v ssa.Value) bool { return v == ssa.Value(call) }) {
-				if ReturnReachableAvoiding(rb.adjust, t.If, isArm.Is, func(e Edge) bool { return !(e.B == t.False.B && e.K == t.False.K) }) == nil {
-					okArm = true
-				}
-			}
+			// path-sensitive: on every path that is feasible when this call returned true (its result may
+			// flow through a phi such as `changed`), the timer is re-armed before returning
+			okArm := MustPassWhenTrue(rb.adjust, call, call, isArm.Is) == nil
 			r.Check(okArm, "C10.R3", an+": timer re-armed with now + backoffDuration after "+FName(f)+" applied", p.InstrPos(call), "every path of the applied edge stores timer := now + backoffDuration", "after an adjustment the timer is not re-armed with now + backoffDuration on every path: weights can change more than once per back-off interval")
 		}
 		r.Floor("C10.R3", nApply, 2, "weight-applying calls in adjustWeights")
